@@ -9,7 +9,7 @@ def prop(pid, **kw):
     kw.setdefault('level', 'other'); kw.setdefault('assumptions', COMMON_ASSUME); kw.setdefault('floors', {})
     PROPS[pid] = kw
 
-prop('C01', rules=['C01.mask'],
+prop('C01', rules=['C01.mask', 'rows', 'regions'], take=['C01.mask', 'C01.once', 'C01.levels'],
      floors={'mask-sites:back': 1, 'mask-sites:back11': 1, 'mask-sites:backmp11': 1},
      explanation='Static rules over the type-checked instantiations of the dispatch code: C01.mask (no equality test on the handled enumerator of a result code).')
 prop('C12', rules=['C12.assign'],
@@ -34,7 +34,7 @@ prop('C19', rules=['rows'], take=['C19.slots'], floors=FLOOR_EXT,
 prop('C09', rules=['rows'], take=['C09.exit-active'], floors={'exit-source-exec:back': 1, 'exit-source-exec:back11': 1, 'exit-source-exec:backmp11': 1},
      explanation=ROWS_EXPL + ' C09.exit-active: an executor whose source is an exit pseudostate has a path returning HANDLED_FALSE before the guard, decided by a test that depends on the owner submachine\'s active-state array.')
 
-prop('C04', rules=['queues', 'flag'], take=['C04.queue-ops', 'C04.dequeue', 'C04.erase', 'C04.target', 'C04.flag', 'C04.flag-exc', 'C04.flag-drain', 'C04.flag-exit'],
+prop('C04', rules=['queues', 'flag', 'poolchain'], take=['C04.queue-ops', 'C04.dequeue', 'C04.erase', 'C04.target', 'C04.flag', 'C04.flag-exc', 'C04.flag-drain', 'C04.flag-exit', 'C04.flag-test'],
      floors={'flag-fn:back:process_event_internal': 1, 'flag-fn:back11:process_event_internal': 1, 'flag-fn:backmp11:process_event_internal': 1,
              'flag-fn:back:start': 1, 'flag-fn:back11:start': 1, 'flag-fn:back:do_entry': 1, 'flag-fn:back11:do_entry': 1, 'flag-fn:backmp11:on_entry': 1,
              'flag-fn:backmp11:on_explicit_entry': 1, 'flag-fn:backmp11:process_completion_transition': 1,
@@ -45,3 +45,9 @@ prop('C04', rules=['queues', 'flag'], take=['C04.queue-ops', 'C04.dequeue', 'C04
              'dequeue-site:back11:execute_queued_events_helper': 1, 'dequeue-site:back11:execute_single_queued_event_helper': 1,
              'stored-callable:back:MSGQ': 1, 'stored-callable:back11:MSGQ': 1},
      explanation='Processing-flag typestate (must-analysis T/F over the CFG of process_event_internal, process_completion_transition, start, do_entry, on_entry, on_explicit_entry with summaries of the flag helpers and scope guards): behaviours and the dispatch run with the flag set, pending-event processing runs with it cleared, every exit leaves it cleared, entry sequences hold it through a scope guard. Queue discipline: who-may-call table for every mutating operation on the message queue, deferred queue and event pool; dequeue protocol front < pop_front < invoke of a by-value copy; erase only of an occurrence marked processed; stored callable bound to the submitting machine with the event by value.')
+
+prop('C06', rules=['regions', 'rows', 'C01.mask'], take=['C06.regions', 'C06.or', 'C06.nt', 'C06.row-result', 'C01.mask'],
+     floors={'region-single:back': 1, 'region-single:back11': 1, 'region-step:back': 1, 'region-step:back11': 1, 'region-end:back': 1, 'region-end:back11': 1,
+             'region-entry:back': 1, 'region-entry:back11': 1, 'do_process_event:back': 1, 'do_process_event:back11': 1, 'do_process_event:backmp11': 1,
+             'nt-site:back': 1, 'nt-site:back11': 1, 'nt-site:backmp11': 1, 'nt-completion:back': 1, 'nt-completion:back11': 1, **FLOOR_EXT},
+     explanation='Region dispatch: every instantiation of the region recursion In<N>::process invokes the cell entries[m_states[N]+1] with (fsm, N, m_states[N], evt) and continues with N+1, starting at 0 and ending at nr_regions with the machine-internal table (backmp11: the for loop 0..nr_regions-1); every write of the accumulated result ORs the old value; do_process_event starts at HANDLED_FALSE and returns the accumulator; no_transition has one call site, on this, with the reported region\'s active id, reachable only through "accumulator is zero" and the containment / direct-call test and unreachable for completion events; row executors return the handled bit / guard-reject / HANDLED_FALSE per path (C06.row-result).')
